@@ -308,16 +308,60 @@ func Eval(s Stmt, pts []Pt) []Series {
 		}
 		out = append(out, ser)
 	}
-	// SOFFSET / SLIMIT select from the ascending series list ...
-	if s.SOffset > 0 {
-		if s.SOffset >= len(out) {
-			out = nil
-		} else {
-			out = out[s.SOffset:]
+	// SOFFSET / SLIMIT select from the ascending list of the tag sets the
+	// index knows for the measurement under the tag predicate - whether or not
+	// a tag set has a point of the field inside the time range (the limit is
+	// applied when the iterators are created, before any data is read); tag
+	// sets without rows then simply produce no series.
+	if s.SOffset > 0 || s.SLimit > 0 {
+		all := map[string]bool{}
+		for _, p := range pts {
+			if p.M != s.M {
+				continue
+			}
+			match := true
+			for k, want := range s.TagEq {
+				if tagOf(p, k) != want {
+					match = false
+				}
+			}
+			if !match {
+				continue
+			}
+			var idParts []string
+			for _, d := range dims {
+				idParts = append(idParts, tagOf(p, d))
+			}
+			all[strings.Join(idParts, "\x00")] = true
 		}
-	}
-	if s.SLimit > 0 && len(out) > s.SLimit {
-		out = out[:s.SLimit]
+		allIDs := make([]string, 0, len(all))
+		for id := range all {
+			allIDs = append(allIDs, id)
+		}
+		sort.Strings(allIDs)
+		if s.SOffset >= len(allIDs) {
+			allIDs = nil
+		} else {
+			allIDs = allIDs[s.SOffset:]
+		}
+		if s.SLimit > 0 && len(allIDs) > s.SLimit {
+			allIDs = allIDs[:s.SLimit]
+		}
+		keep := map[string]bool{}
+		for _, id := range allIDs {
+			keep[id] = true
+		}
+		var sel []Series
+		for _, ser := range out {
+			var idParts []string
+			for _, d := range dims {
+				idParts = append(idParts, ser.Tags[d])
+			}
+			if keep[strings.Join(idParts, "\x00")] {
+				sel = append(sel, ser)
+			}
+		}
+		out = sel
 	}
 	if s.Desc {
 		// ... and ORDER BY time DESC lists the series in descending tag order
